@@ -155,6 +155,24 @@ def run(ctx):
                     ctx.violation(dict(key, clause=clause), "%s (%s): %s" % (how, conv, msg), {"F": v["F"], "D": v["D"], "E": v["E"], "lonlat_time": llt})
             else:
                 ctx.replayed()
+        # one station picked out of the native dataset (the station dimension becomes a scalar coordinate): the convention is still
+        # identified from the variables, and the spectra of that station come back converted as in the full dataset
+        if conv == "ww3":
+            sdim = [d for d in ds.efth.dims if d not in ("time", "frequency", "direction")][0]
+            for k in (0, ds.sizes[sdim] - 1):
+                ctx.case((conv, "one-station", k, tuple(v["F"]), tuple(v["D"]), str(v["E"])), True)
+                try:
+                    o1 = read_dataset(ds.isel({sdim: k}).copy(deep=True))
+                    e1 = o1.efth.squeeze().transpose("time", "freq", "dir")
+                    ok = np.allclose(e1.values, exp[:, k], rtol=1e-12, atol=0) and np.allclose(o1.dir.values, exp_dir, rtol=0, atol=1e-9)
+                    what = "spectra of station %d differ from the converted full dataset" % k
+                except Exception as ex:  # noqa
+                    ok, what = False, "raised %s: %s" % (type(ex).__name__, str(ex)[:160])
+                if ok:
+                    ctx.replayed()
+                else:
+                    ctx.violation({"conv": conv, "via": "read_dataset", "clause": "one-station"}, "read_dataset on one station of a %s dataset: %s" % (conv, what),
+                                  {"F": v["F"], "D": v["D"]})
     # ---- ERA5: log10 densities with missing values on the default 30 x 24 grid and on explicit grids
     for rep in range(6 if ctx.quick else 60):
         nf, nd, explicit = (30, 24, False) if rep % 4 in (0, 2, 3) else (3, 4, True)
